@@ -100,6 +100,12 @@ def _original(run, prog, cls, s, fq, roles, fields, chains):
             if not (isinstance(ev, ir.Call) and ev.callee == f"self.{mf}"):
                 continue
             arg = ev.args[0] if ev.args else None
+            if arg is not None and arg[0] == "sub" and arg[1] == xd:
+                found += 1
+                run.fail("ORIG", fq, f"{s.path}:{ev.line}", fq, f"model evaluated on the data row {ir.show_nl(arg)[:80]} itself",
+                         "the model is evaluated on a row object of the data set itself (revealed values are written into it): "
+                         "later background draws are no longer rows of the data set")
+                continue
             if arg is None or arg[0] != "new" or arg[2] != "dict":
                 continue
             base = arg[3][0][1] if arg[3] and arg[3][0][0] == "spread" else None
